@@ -35,6 +35,11 @@ def main():
         run(["git", "-C", "/repo", "worktree", "add", "-q", "--detach", wt,
              "HEAD"])
         ap = run(["git", "-C", wt, "apply", os.path.join(d, "patch.diff")])
+        if ap.returncode != 0:
+            ap = run(["git", "-C", wt, "apply", "--3way",
+                      os.path.join(d, "patch.diff")])
+            if ap.returncode != 0:
+                run(["git", "-C", wt, "checkout", "-q", "--", "."])
         if ap.returncode != 0 or meta.get("run_on") == "base":
             run(["git", "-C", "/repo", "worktree", "remove", "--force", wt])
             base = meta.get("base_commit", "fec644c")
